@@ -6,7 +6,7 @@ def main(argv):
     res=run_generated(CC.random_term_configs('quick', int(argv[0]), n_quick=int(argv[1])),'harness.judge_compose.judge',{'prop':'CENSUS','facets':['crash','exc','accepted','compile','behaviour','caps','export','emptytext']})
     print(res.states, dict(res.agg.stats), round(time.time()-t,1))
     g=collections.defaultdict(list)
-    for f in res.agg.failures: g[(f['facet'], f['detail'].get('observed',''))].append(f)
+    for f in res.agg.failures: g[(f['facet'], str(f['detail'].get('observed',''))[:40])].append(f)
     for k,v in sorted(g.items(), key=lambda kv:-len(kv[1])):
         print(len(v),k)
         for f in v[:6]: print('    ',f['term'][:150],'[%s]'%f['spelling'],json.dumps(f['detail'])[:300])
